@@ -33,6 +33,18 @@ fn child(alive: &AtomicBool, yields: usize) {
     CHILD_DONE.fetch_add(1, Ordering::SeqCst);
 }
 
+/// captured by move by a select coroutine; its destructor is still part of the coroutine and takes a while
+struct LateGuard<'a>(&'a AtomicBool);
+impl Drop for LateGuard<'_> {
+    fn drop(&mut self) {
+        coroutine::yield_now();
+        if !self.0.load(Ordering::SeqCst) {
+            BAD.fetch_add(1, Ordering::SeqCst);
+        }
+        STEPS.fetch_add(1, Ordering::SeqCst);
+    }
+}
+
 #[derive(Clone, Copy, PartialEq, Debug)]
 enum Fault {
     Nothing,
@@ -51,7 +63,7 @@ enum Kind {
     Nested,
 }
 
-fn the_scope(kind: Kind, alive: &Arc<AtomicBool>, children: usize, yields: usize, fault: Fault) -> u32 {
+fn the_scope(e: &'static Engine, kind: Kind, alive: &Arc<AtomicBool>, children: usize, yields: usize, fault: Fault) -> u32 {
     let _frame = Frame(alive.clone());
     let a: &AtomicBool = alive;
     match kind {
@@ -126,7 +138,19 @@ fn the_scope(kind: Kind, alive: &Arc<AtomicBool>, children: usize, yields: usize
         Kind::Cqueue => {
             may::cqueue::scope(|cq| {
                 for i in 0..children {
-                    go!(cq, i, |es| {
+                    // moved into the arm: dropped as the very last thing the select coroutine does, after its
+                    // EventSender has reported Done
+                    let late = LateGuard(a);
+                    go!(cq, i, move |es| {
+                        let _late = &late;
+                        if fault == Fault::LastChildPanics {
+                            if i + 1 == children {
+                                CHILD_DONE.fetch_add(1, Ordering::SeqCst);
+                                std::panic::panic_any(31u32);
+                            }
+                            // still busy when the owner comes back from its nap
+                            coroutine::sleep(Duration::from_millis(2));
+                        }
                         child(a, yields);
                         es.send(0);
                     });
@@ -134,8 +158,17 @@ fn the_scope(kind: Kind, alive: &Arc<AtomicBool>, children: usize, yields: usize
                 if fault == Fault::OwnerPanics {
                     std::panic::panic_any(31u32);
                 }
-                // consume one event only, the rest is left to the drop of the cqueue
-                let _ = cq.poll(None);
+                if fault == Fault::LastChildPanics {
+                    // no poll: the drop of the cqueue finds the panic of the last arm while the others are busy
+                    if may::coroutine::is_coroutine() {
+                        coroutine::sleep(Duration::from_millis(1));
+                    } else {
+                        e.vsleep(1_000_000);
+                    }
+                } else {
+                    // consume one event only, the rest is left to the drop of the cqueue
+                    let _ = cq.poll(None);
+                }
             });
             0
         }
@@ -151,14 +184,14 @@ fn run(e: &'static Engine, workers: usize, owner_co: bool, kind: Kind, children:
         let a = alive.clone();
         let o = go!(move || {
             if matches!(fault, Fault::OwnerPanics | Fault::LastChildPanics) {
-                let r = std::panic::catch_unwind(std::panic::AssertUnwindSafe(|| the_scope(kind, &a, children, yields, fault)));
+                let r = std::panic::catch_unwind(std::panic::AssertUnwindSafe(|| the_scope(e, kind, &a, children, yields, fault)));
                 match r {
                     Err(p) if p.downcast_ref::<u32>() == Some(&31) => 1000,
                     Err(_) => 2000,
                     Ok(v) => v,
                 }
             } else {
-                the_scope(kind, &a, children, yields, fault)
+                the_scope(e, kind, &a, children, yields, fault)
             }
         });
         if fault == Fault::OwnerCancelled {
@@ -175,7 +208,7 @@ fn run(e: &'static Engine, workers: usize, owner_co: bool, kind: Kind, children:
             }
         }
     } else {
-        let r = std::panic::catch_unwind(std::panic::AssertUnwindSafe(|| the_scope(kind, &alive, children, yields, fault)));
+        let r = std::panic::catch_unwind(std::panic::AssertUnwindSafe(|| the_scope(e, kind, &alive, children, yields, fault)));
         match r {
             Ok(v) => out.push_str(&format!("owner={}", v)),
             Err(p) if p.downcast_ref::<u32>() == Some(&31) && matches!(fault, Fault::OwnerPanics | Fault::LastChildPanics) => out.push_str("owner=1000"),
@@ -194,7 +227,8 @@ fn run(e: &'static Engine, workers: usize, owner_co: bool, kind: Kind, children:
     if kind != Kind::Cqueue && (done_at_exit as usize) < children && out != "owner=cancel" {
         e.fail("scope_left_early", &format!("the scope was left with {} of {} children finished", done_at_exit, children));
     }
-    if fault == Fault::LastChildPanics && out != "owner=1000" {
+    // (a cqueue cancels its unfinished select coroutines when it is dropped: the last one may never reach its panic)
+    if fault == Fault::LastChildPanics && out != "owner=1000" && !(kind == Kind::Cqueue && out == "owner=0") {
         e.fail("child_panic_not_propagated", &format!("the panic of a scoped child did not reach the owner: {}", out));
     }
     if kind == Kind::Scope && fault == Fault::Nothing {
@@ -256,6 +290,9 @@ pub fn build(quick: bool) -> Vec<Scenario> {
             (true, Kind::Scope, 1, 3, Fault::OwnerCancelled),
             (true, Kind::JoinMacro, 1, 3, Fault::OwnerCancelled),
             (true, Kind::Cqueue, 1, 3, Fault::OwnerCancelled),
+            (false, Kind::Cqueue, 1, 2, Fault::OwnerPanics),
+            (true, Kind::Cqueue, 2, 3, Fault::LastChildPanics),
+            (false, Kind::Cqueue, 2, 3, Fault::LastChildPanics),
             (true, Kind::Nested, 1, 2, Fault::Nothing),
             (true, Kind::Nested, 2, 2, Fault::OwnerCancelled),
             (true, Kind::Nested, 1, 2, Fault::OwnerPanics),
